@@ -147,6 +147,17 @@ CHECKS.update({
     ),
 })
 
+CHECKS.update({
+    "C16": dict(
+        engine="E1 SymArray (z3) over seed-enumerated programs",
+        cat=TV,
+        text="PARTIAL. The configuration quantifier (PYTHONHASHSEED, uuid draws) is enumerated: every corpus call is compiled in 8 (64 thorough) fresh interpreters with different hash seeds. The data quantifier is decided by the solver: whenever the generated texts differ between seeds they are executed on the same SymArrays (symbolic contents, symbolic duplicate-capable coordinates) and z3 proves them equal for all contents; identical texts are discharged syntactically. Exception classes across seeds and the two graph=True texts within one process are compared directly.",
+        note="Hash seed / uuid are not solver variables (they act through CPython's string hashing and os.urandom underneath sympy/numpy). Corpus = program family of C01/C14.",
+        tech="per-seed program extraction + SMT equivalence of the generated programs",
+        ref="DESIGN.md §3 C16",
+    ),
+})
+
 NOT_APPLICABLE = {
     "C17": "quantifies over all axis lengths and the syntactic form of generated text; stages 2-4 cannot run with symbolic sizes under any installed engine (sympy, numpy int32 casts), see DESIGN.md §3 C17",
 }
